@@ -15,6 +15,8 @@ THEOREMS_PINNED = [
      'forall (parse : bytes -> option uparts) (conn_scheme : bytes) (cfg : ccfg) (hist : list (bytes * allow_list)) (r : request) (a : bytes), rs_reach hist (cc_rules cfg) -> header H_HOST r = Some a -> req_verdict parse conn_scheme cfg r = cors_spec parse (hist_lookup cfg hist) (rq_method r) conn_scheme a (rq_path r) (header H_ORIGIN r)'),
     ('cors_decision',
      'forall (parse : bytes -> option uparts) (conn_scheme : bytes) (cfg : ccfg) (c : cache) (now : N) (r0 : request) (a o : bytes), mem_byte c_colon conn_scheme = false -> handlers_external cfg -> no_internal c -> header H_HOST r0 = Some a -> header H_ORIGIN r0 = Some o -> sanitize_ok_fix r0 = true -> stable cfg r0 -> (req_verdict parse conn_scheme cfg r0 = VRefuse -> respond parse is_part_of_origin conn_scheme cfg (c, tt) now r0 = ((c, tt), mkWire 403 [] (if rq_method r0 =? M_HEAD then [] else DENIED) [])) /\\ (req_verdict parse conn_scheme cfg r0 <> VRefuse -> pf_shape r0 = false -> respond parse is_part_of_origin conn_scheme cfg (c, tt) now r0 = (fst (respond parse is_part_of_origin conn_scheme cfg (c, tt) now (strip_origin r0)), let w := snd (respond parse is_part_of_origin conn_scheme cfg (c, tt) now (strip_origin r0)) in mkWire (w_status w) (if cc_with_cors cfg then set_header H_ACAO o (w_headers w) else w_headers w) (w_body w) (w_log w)))'),
+    ('cors_decision_histories',
+     'forall (parse : bytes -> option uparts) (conn_scheme : bytes) (cfg : ccfg) (ops : list (cop * N)) (t0 now : N) (r0 : request) (a o : bytes), mem_byte c_colon conn_scheme = false -> handlers_external cfg -> header H_HOST r0 = Some a -> header H_ORIGIN r0 = Some o -> sanitize_ok_fix r0 = true -> stable cfg r0 -> let st := run_conn_state parse is_part_of_origin conn_scheme cfg ([], tt) t0 ops in (req_verdict parse conn_scheme cfg r0 = VRefuse -> respond parse is_part_of_origin conn_scheme cfg st now r0 = (st, mkWire 403 [] (if rq_method r0 =? M_HEAD then [] else DENIED) [])) /\\ (req_verdict parse conn_scheme cfg r0 <> VRefuse -> pf_shape r0 = false -> respond parse is_part_of_origin conn_scheme cfg st now r0 = (fst (respond parse is_part_of_origin conn_scheme cfg st now (strip_origin r0)), let w := snd (respond parse is_part_of_origin conn_scheme cfg st now (strip_origin r0)) in mkWire (w_status w) (if cc_with_cors cfg then set_header H_ACAO o (w_headers w) else w_headers w) (w_body w) (w_log w)))'),
     ('preflight_eq',
      'forall (parse : bytes -> option uparts) (conn_scheme : bytes) (cfg : ccfg), mem_byte c_colon conn_scheme = false -> handlers_external cfg -> forall (c : cache) (now : N) (r0 : request) (a o : bytes) (ms : option (list N)) (hs : list bytes) (t : N), header H_HOST r0 = Some a -> sanitize_ok_fix r0 = true -> no_internal c -> stable cfg r0 -> pf_shape r0 = true -> header H_ORIGIN r0 = Some o -> verdict_grant (req_verdict parse conn_scheme cfg r0) = Some (ms, hs, t) -> respond parse is_part_of_origin conn_scheme cfg (c, tt) now r0 = ((c, tt), mkWire 204 (let h := [(H_ACAM, methods_bytes ms); (H_ACAH, join_comma hs); (H_ACMA, dec (max_age_secs t))] in if cc_with_cors cfg then h ++ [(H_ACAO, o)] else h) [] [])'),
     ('cors_cache_independent',
@@ -188,6 +190,8 @@ def rand_request(rng, rules, warm=False):
         extra.append((b"access-control-request-method", rng.choice(METHODS)))
         if rng.random() < 0.4:
             extra.append((b"access-control-request-headers", rng.choice(HEADERS)))
+    if origin is not None and rng.random() < 0.03:     # a second Origin line: the HTTP/1 reader keeps the last one
+        extra.append((b"origin", rng.choice(rule_origins(rules) or RULE_ORIGINS)))
     return req(method, path, host, origin, extra), ood
 
 
@@ -259,8 +263,35 @@ def check_case(rng, rules, n):
     return Case("cors.check", xl(xlist(rules), xlist(probes)), "cors.check_spec", {"kind": "check", "ood": ood})
 
 
+P_SCHEMES = [b"http", b"https", b"HTTP", b"Https", b"ftp", b"ws", b"a+b-c.d", b"x" * 64, b"x" * 65, b"h", b"", b"1a", b"ht tp", b"ht_tp"]
+P_HOSTS = [b"kvarn.org", b"localhost", b"a", b"A.B", b"1.2.3.4", b"x_y~z", b"", b"null", b"-"]
+P_PORTS = [b"", b"", b":", b":0", b":80", b":65535", b":65536", b":080", b":8a", b":80:80", b":443"]
+P_TAILS = [b"", b"", b"/", b"/a/b", b"/a.b/c-d"]
+P_BAD = [b" ", b"<", b">", b"^", b"`", b"\\", b"|", b"{", b"}", b"\x7f", b"\xe9", b"\xff"]
+
+
+def parse_input(rng):
+    k = rng.random()
+    if k < 0.55:
+        v = rng.choice(P_SCHEMES) + b"://" + rng.choice(P_HOSTS) + rng.choice(P_PORTS) + rng.choice(P_TAILS)
+    elif k < 0.85:
+        v = rng.choice(P_HOSTS) + rng.choice(P_PORTS)
+    elif k < 0.90:
+        v = rng.choice([b"", b"/", b"*", b"/a/b", b":", b"a", b"a:b", b"://", b":///", b"http:", b"http:/", b"http:/a", b"http//a"])
+    else:
+        v = rng.choice(P_SCHEMES[:6]) + b"://" + rng.choice(P_HOSTS) + rng.choice(P_PORTS)
+    if rng.random() < 0.12:       # a byte that is no URI character, before any '/' of the authority
+        cut = v.find(b"/", v.find(b"://") + 3 if b"://" in v else 0)
+        pos = rng.randrange(0, (cut if cut >= 0 else len(v)) + 1)
+        if not (b"://" in v and pos <= v.find(b"://") + 2):
+            v = v[:pos] + rng.choice(P_BAD) + v[pos:]
+    return xb(v)
+
+
 def generate(rng, tier):
     cases = []
+    for _ in range(150 if tier == "quick" else 4000):
+        cases.append(Case("cors.parse", xlist([parse_input(rng) for _ in range(rng.choice([1, 4, 10]))]), None, {"kind": "parse"}))
     for base in (0, 1):
         for wc in (True, False):
             for h in corpus():
@@ -269,7 +300,7 @@ def generate(rng, tier):
     kr = [rule(b"/api/index.html", allow_all=True), rule(b"/img/", [b"https://icelk.dev"])]
     cases.append(conn_case(cfg(0, True, kr, CORPUS_HANDLERS), [req(b"GET", b"/api/", origin=b"https://evil.example"),
                                                                req(b"GET", b"/img/", origin=b"https://icelk.dev")], "corpus-known"))
-    nhist, nsingle, ncheck = (170, 260, 60) if tier == "quick" else (6000, 6000, 1500)
+    nhist, nsingle, ncheck = (200, 500, 400) if tier == "quick" else (6000, 12000, 12000)
     for _ in range(nhist):
         rules = rand_rules(rng)
         ops, ood = history(rng, rng.randrange(4, 14), rules)
@@ -288,7 +319,7 @@ def generate(rng, tier):
         ops.append(r)
         cases.append(conn_case(cfg(rng.choice([0, 0, 1]), rng.random() < 0.85, rules, handlers(rng), cache=rng.random() < 0.9), ops, "single", ood))
     for _ in range(ncheck):
-        cases.append(check_case(rng, rand_rules(rng), 25))
+        cases.append(check_case(rng, rand_rules(rng), rng.choice([1, 2, 4, 8])))
     return cases
 
 
@@ -311,10 +342,11 @@ def _cfg(c):
 
 
 def _hdr(op, name):
-    for h in op[1][3][1]:
+    v = None
+    for h in op[1][3][1]:      # kvarn's HTTP/1 reader keeps the last line of a repeated header
         if h[1][0][1] == name:
-            return h[1][1][1]
-    return None
+            v = h[1][1][1]
+    return v
 
 
 def _rules(c):
@@ -467,6 +499,8 @@ def classify(c, impl):
 
 def signature(c, m):
     try:
+        if c.comp == "cors.parse":
+            return m[:120] if "(L)" in m and "(B " in m else None
         if c.comp == "cors.check":
             return m[:200] if "(L)" in m and "(N 604800)" in m else None
         st = [x[1][0][1] for x in _items(m) if x[1]]
@@ -497,6 +531,8 @@ def directed(rng, mismatches):
 
 
 def describe(c):
+    if c.comp == "cors.parse":
+        return {"component": c.comp, "inputs": [kv.pretty(b, 100) for b in c.x[1]][:10]}
     if c.comp == "cors.check":
         return {"component": c.comp, "rules": [kv.pretty(r, 200) for r in c.x[1][0][1]][:6], "probes": [kv.pretty(p, 160) for p in c.x[1][1][1]][:6]}
     cf = _cfg(c)
